@@ -205,6 +205,9 @@ func lexReplay(c *core.Ctx, path string) int {
 		fmt.Println("cannot read replay file", path)
 		return 2
 	}
+	if len(rec.Case.Input) == 0 && len(rec.Case.Expected.Toks) == 0 {
+		return 3 // not a lexer case (e.g. a Positions_Trace violation): the generic replay handles it
+	}
 	got, crash := LexReal(fromCps(rec.Case.Input))
 	class := "tokens"
 	if c.ID == "C04" {
